@@ -35,3 +35,32 @@ package command
 // ---------------------------------------------------------------- C15: compaction command
 
 //@ F [cli.compact.src.readonly] props C15 C17 : openoptions command.(*compactOptions).Run : ReadOnly == first
+
+// ---------------------------------------------------------------- C20: every surgery command writes only its output file
+
+//@ func surgeryRevertMetaPageFunc
+//@   props C20
+//@   ensures [onlyoutput] fwcount > old(fwcount) ==> fwpath == cfg.outputDBFilePath
+//@   ensures [created] ncreated > old(ncreated) ==> createdpath == cfg.outputDBFilePath
+//@   ensures [reverted] result == nil ==> fwcount == old(fwcount) + 1
+
+//@ func surgeryCopyPageFunc
+//@   props C20
+//@   ensures [onlyoutput] fwcount > old(fwcount) ==> fwpath == cfg.outputDBFilePath
+//@   ensures [created] ncreated > old(ncreated) ==> createdpath == cfg.outputDBFilePath
+
+//@ func surgeryClearPageFunc
+//@   props C20
+//@   ensures [onlyoutput] fwcount > old(fwcount) ==> fwpath == cfg.outputDBFilePath
+//@   ensures [created] ncreated > old(ncreated) ==> createdpath == cfg.outputDBFilePath
+
+//@ func surgeryClearPageElementFunc
+//@   props C20
+//@   ensures [onlyoutput] fwcount > old(fwcount) ==> fwpath == cfg.outputDBFilePath
+//@   ensures [created] ncreated > old(ncreated) ==> createdpath == cfg.outputDBFilePath
+
+//@ func surgeryFreelistAbandonFunc
+//@   props C20
+//@   ensures [onlyoutput] fwcount > old(fwcount) ==> fwpath == cfg.outputDBFilePath
+//@   ensures [created] ncreated > old(ncreated) ==> createdpath == cfg.outputDBFilePath
+//@   ensures [abandoned] result == nil ==> fwcount == old(fwcount) + 2 && fwfreelist == common.PgidNoFreelist && fwsumok
